@@ -464,6 +464,11 @@ def check(run):
                 kppi_case(run, ps, rng, n, fam, Nk, Npi, pf, nthread, L)
                 if run.too_many():
                     return
+    # hundreds of k bins (calc_power's default is one bin per mesh cell: nmesh = 512 means 512 bins): modes far beyond bin 255 / 256
+    for n, Nk, fam in ((12, 300, 'notie_wide'), (16, 513, 'lin0_nyq'), (9, 1000, 'random'), (10, 257, 'notie')):
+        kmu_case(run, ps, rng, n, fam, Nk, [1, 3][n % 2], [(0, 2), ()][n % 2], [1, 16, 3][n % 3], 2 * np.pi)
+        kppi_case(run, ps, rng, n, fam, Nk, 5, 0.9, [16, 1, 4][n % 3], 2 * np.pi)
+        run.count('cases_with_hundreds_of_k_bins', 2)
     run.sample(dict(kernel='bin_kmu', n=7, edges='beyond_nyq', Nk=4, Nmu=3, poles=[0, 2, 4], nthread=16, mesh='distinct integers 1..n*n*(n//2+1), dtype float64'))
     run.sample(dict(kernel='bin_kppi', n=8, edges='above0_belownyq', Nk=3, Npi=4, pimax_over_nyq=0.5))
     for n in (range(2, 13) if run.quick else range(2, 33)):
